@@ -13,7 +13,7 @@ PROPERTY = "C16"
 LEVEL = "fault_enumeration"
 RULE = (
     "Faults = truncations and length-prefix corruptions of valid encodings.  For every (schema, "
-    "struct, value) of the codec workload the encoder's own output (checked to decode back to v) is "
+    "struct, value) of the codec workload the encoder's own output (checked to equal the canonical bytes) is "
     "cut at EVERY byte boundary 0..len-1 (quick: for encodings > 24 bytes the first 8, last 8 and 6 seeded "
     "boundaries; thorough: > 64 bytes: 24 + 24 + 16; encodings above 8 KB (thorough 64 KB) are skipped); each u32 count is replaced by count+1, 2*count+1, 2^16, 2^31, 2^32-1 (tail kept, "
     "and tail dropped right after the count); each set optional flag is kept with its payload "
@@ -271,10 +271,13 @@ def run(run):
                 continue
             try:
                 data = bytes(serde.encode(fcp, name, v))
-                back = serde.decode(fcp, name, bytearray(data))
             except Exception:
                 continue  # C01's business
-            if not ref.same(back, v) or len(data) == 0:
+            # a VALID encoding is one that equals the canonical bytes (an encoder that emits something else is
+            # C02's business); whether the decoder maps the complete input back to v is C01's - its strict
+            # prefixes must be rejected either way
+            if len(data) == 0 or data != ref.encode(sch, name, v):
+                run.count("encodings_not_canonical_skipped")
                 continue
             if len(data) > run.pick(8192, 65536):
                 # every fault costs one decode of the whole input (the decoder loads it bit by bit)
